@@ -8,7 +8,7 @@ use flussab::{DeferredReader, Refill};
 #[kani::proof]
 pub fn parse_log_i8() {
     let fuel: usize = kani::any();
-    kani::assume(fuel <= 2);
+    kani::assume(fuel <= 3);
     st::reset(fuel);
     let mut reader = LineReader::new(DeferredReader::model_any(Refill::All));
     let ignore: bool = kani::any();
